@@ -17,7 +17,12 @@ m=json.load(open('$V/seeded/$id/meta.json'))
 c=[x['check'] for x in m['checks'] if x['exit']==1]
 print(' '.join(c[:1]))")
   [ -z "$checks" ] && { echo "$id: no catching check recorded"; continue; }
-  out=$(MUT_BUDGET=${MUT_BUDGET:-30} tools/mutant.sh seeded/$id/patch.diff $checks 2>&1)
+  # a change may need a scenario that is not scheduled in the quick tier: meta.json names the environment
+  envs=$(python3 -c "
+import json
+m=json.load(open('$V/seeded/$id/meta.json'))
+print(' '.join('%s=%s'%(k,v) for k,v in m.get('env',{}).items()))")
+  out=$(env MUT_BUDGET=${MUT_BUDGET:-30} $envs tools/mutant.sh seeded/$id/patch.diff $checks 2>&1)
   cls=$(echo "$out" | grep -o "class=[^ ]*" | head -1)
   if echo "$out" | grep -q "VIOLATION"; then echo "$id: caught by $checks ($cls)"; else echo "$id: MISSED by $checks"; echo "$out" | tail -3; missed=1; fi
 done
